@@ -6,7 +6,16 @@ pub struct SerializedValue { _p: () }
 #[verifier::external_body]
 pub struct SerializedValueSlice { _p: () }
 
-pub enum Field { U32(u32), Disc(u8) }
+// uuid: opaque 128-bit id
+#[verifier::external_body]
+pub struct Uuid { _p: () }
+impl Clone for Uuid {
+    #[verifier::external_body]
+    fn clone(&self) -> (r: Self) ensures r == *self { unimplemented!() }
+}
+impl Copy for Uuid {}
+
+pub enum Field { U32(u32), Disc(u8), Id(Uuid) }
 
 //@item core/src/message/kind.rs enum MessageKind attr=derive(Clone,Copy)
 //@item core/src/message/error.rs enum MessageSerializeError
@@ -64,6 +73,12 @@ impl MessageSerializer {
     #[verifier::external_body]
     pub fn put_varint_u32_le(&mut self, n: u32)
         ensures final(self).fields() == old(self).fields().push(Field::U32(n)), final(self).kind() == old(self).kind(),
+            final(self).has_value() == old(self).has_value(), final(self).value() == old(self).value()
+    { unimplemented!() }
+
+    #[verifier::external_body]
+    pub fn put_uuid(&mut self, uuid: Uuid)
+        ensures final(self).fields() == old(self).fields().push(Field::Id(uuid)), final(self).kind() == old(self).kind(),
             final(self).has_value() == old(self).has_value(), final(self).value() == old(self).value()
     { unimplemented!() }
 
